@@ -1004,4 +1004,358 @@ theorem removeDirectory_exact (X : XCtx) (hord : OrdComplete X.env) (fuel : Nat)
                   exact FrameT.trans hF (FrameT.of_frame hfr)
             · exact ⟨hF, hS, fun hc => (by cases hc), fun _ => rep_of_dirRep X _ _ _ _ hI3'⟩
 
+/-! ## Creation -/
+
+/-- The staged files hash to the digests they are staged under. -/
+def Honest (X : XCtx) (st : St) : Prop := ∀ k f, aget k st.staged = some f → X.H f.data = k.2
+
+theorem Honest.shrinks {X : XCtx} {st st' : St} (h : Honest X st) (hs : StagedShrinks st st') : Honest X st' := by
+  intro k f hk
+  obtain ⟨f0, hk0, hd⟩ := hs k f hk
+  rw [hd]; exact h k f0 hk0
+
+theorem Honest.of_eq {X : XCtx} {st st' : St} (h : Honest X st) (hs : st'.staged = st.staged) : Honest X st' :=
+  h.shrinks (StagedShrinks.of_eq hs)
+
+/-- The permission mode of created files reflects the executability of the
+entry (`execOf`), and is not zero. -/
+def FileModeOK (env : Env) : Prop :=
+  ∀ b : Bool, execOf ((if b then markExecutableForReaders env.fileMode else env.fileMode) % 512) = b ∧
+    (if b then markExecutableForReaders env.fileMode else env.fileMode) % 512 ≠ 0
+
+/-- Entries a plan may create: the shape `EnsureValid` enforces, and no
+temporary names. -/
+inductive GoodNew : Entry → Prop
+  | file (e : Bool) (d : List UInt8) : GoodNew (.mk { kind := .file, executable := e, digest := d } [])
+  | symlink (t : String) : GoodNew (.mk { kind := .symlink, target := t } [])
+  | dir (cs : Contents) : (∀ n c, lookup n cs = some c → isTemporaryName n = false) →
+      (∀ n c, lookup n cs = some c → GoodNew c) → GoodNew (.mk { kind := .directory } cs)
+  | other (e : Entry) : e.kind ≠ .directory → e.kind ≠ .file → e.kind ≠ .symlink → GoodNew e
+
+theorem fsSymlink_target_ne (top top' : Node) (h : Handle) (n : Name) (t : String) (hu : fsSymlink top h n t = some top') :
+    t ≠ "" := by
+  unfold fsSymlink at hu
+  obtain ⟨p, cs, cs', h1, h2, h3⟩ := updDir_at _ _ _ _ hu
+  intro ht
+  subst ht
+  simp at h2
+
+theorem createSymbolicLink_eff (env : Env) (st : St) (parent : Handle) (name : Name) (path : Path) (target : Entry)
+    (r : Option String) (st' : St) (h : createSymbolicLink env st parent name path target = (r, st')) :
+    st'.staged = st.staged ∧ (r ≠ none → st'.fs = st.fs) ∧
+    (r = none → fsSymlink st.fs parent name target.props.target = some st'.fs ∧
+      linkShown env path target.props.target = some target.props.target) := by
+  unfold createSymbolicLink at h
+  split at h
+  · simp only [Prod.mk.injEq] at h; obtain ⟨rfl, rfl⟩ := h; exact ⟨rfl, fun _ => rfl, fun hc => by cases hc⟩
+  · rename_i hign
+    split at h
+    · simp only [Prod.mk.injEq] at h; obtain ⟨rfl, rfl⟩ := h; exact ⟨rfl, fun _ => rfl, fun hc => by cases hc⟩
+    · rename_i hport
+      split at h
+      · simp only [Prod.mk.injEq] at h; obtain ⟨rfl, rfl⟩ := h; exact ⟨rfl, fun _ => rfl, fun hc => by cases hc⟩
+      · rcases hh : hook env st .symlink name with ⟨a, st1⟩
+        have h1 : st1.fs = st.fs := by have := hook_fs env st .symlink name; rw [hh] at this; exact this
+        have hs1 : st1.staged = st.staged := by have := hook_staged env st .symlink name; rw [hh] at this; exact this
+        rw [hh] at h
+        simp only at h
+        split at h
+        · simp only [Prod.mk.injEq] at h; obtain ⟨rfl, rfl⟩ := h; exact ⟨hs1, fun _ => h1, fun hc => by cases hc⟩
+        · cases hs : fsSymlink st1.fs parent name target.props.target with
+          | none =>
+            rw [hs] at h; simp only [Prod.mk.injEq] at h; obtain ⟨rfl, rfl⟩ := h
+            exact ⟨hs1, fun _ => h1, fun hc => by cases hc⟩
+          | some fs2 =>
+            rw [hs] at h
+            simp only at h
+            have hch : ∀ b st3, opChmod env { st1 with fs := fs2 } parent name 0 = (b, st3) →
+                st3.fs = fs2 ∧ st3.staged = st1.staged := by
+              intro b st3 hc
+              unfold opChmod hook at hc
+              grind
+            rcases hc : opChmod env { st1 with fs := fs2 } parent name 0 with ⟨b, st3⟩
+            obtain ⟨h3, hs3⟩ := hch b st3 hc
+            rw [hc] at h
+            have hshown : linkShown env path target.props.target = some target.props.target := by
+              unfold linkShown
+              have hne := fsSymlink_target_ne _ _ _ _ _ hs
+              cases hm : env.slMode with
+              | ignore => rw [hm] at hign; simp at hign
+              | portable =>
+                rw [hm] at hport
+                simp only [beq_self_eq_true, Bool.true_and, bne_iff_ne, ne_eq, Decidable.not_not] at hport
+                simpa using hport
+              | posixRaw => simp [hne]
+            have hres : r = none ∧ st'.fs = fs2 ∧ st'.staged = st.staged := by
+              cases b <;> (simp only [Prod.mk.injEq] at h; obtain ⟨rfl, rfl⟩ := h; simp [h3, hs3, hs1])
+            obtain ⟨hr, hfs, hst⟩ := hres
+            refine ⟨hst, fun hc => absurd hr hc, fun _ => ⟨?_, hshown⟩⟩
+            rw [hfs, ← h1]; exact hs
+
+/-- A description of a directory survives changes that only concern temporaries. -/
+theorem DirRep.unch {X : XCtx} {fs fs1 : Node} {dirQ : List Name} {path : Path} {cur : Contents}
+    (h : DirRep X fs dirQ path cur) (hq : TempFree dirQ) (hu : Unch fs fs1) : DirRep X fs1 dirQ path cur := by
+  have := rep_same X fs fs1 dirQ path _ (rep_of_dirRep X fs dirQ path cur h) (sameBelow_of_unch fs fs1 dirQ hu hq)
+  exact dirRep_of_rep X fs1 dirQ path cur this
+
+/-- What `createDirectory` must guarantee for its content loop (exactness). -/
+def MkX (X : XCtx) (rec : MkRec) : Prop :=
+  ∀ st h n p e, TempFree (h ++ [n]) → GoodNew e → e.kind = .directory → Honest X st →
+    StagedShrinks st (rec st h n p e).2 ∧
+    ((rec st h n p e).1 = none → Unch st.fs (rec st h n p e).2.fs) ∧
+    (∀ ce, (rec st h n p e).1 = some ce → sget st.fs (h ++ [n]) = none ∧
+      RepAt X (rec st h n p e).2.fs (h ++ [n]) p ce ∧ FrameT st.fs (rec st h n p e).2.fs (h ++ [n]))
+
+theorem goodNew_file_shape (e : Entry) (hg : GoodNew e) (hk : e.kind = .file) :
+    ∃ x d, e = .mk { kind := .file, executable := x, digest := d } [] := by
+  cases hg with
+  | file x d => exact ⟨x, d, rfl⟩
+  | symlink t => simp [Entry.kind, Entry.props] at hk
+  | dir cs h1 h2 => simp [Entry.kind, Entry.props] at hk
+  | other e h1 h2 h3 => exact absurd hk h2
+
+theorem goodNew_symlink_shape (e : Entry) (hg : GoodNew e) (hk : e.kind = .symlink) :
+    ∃ t, e = .mk { kind := .symlink, target := t } [] := by
+  cases hg with
+  | file x d => simp [Entry.kind, Entry.props] at hk
+  | symlink t => exact ⟨t, rfl⟩
+  | dir cs h1 h2 => simp [Entry.kind, Entry.props] at hk
+  | other e h1 h2 h3 => exact absurd hk h3
+
+theorem goodNew_dir_shape (e : Entry) (hg : GoodNew e) (hk : e.kind = .directory) :
+    ∃ cs, e = .mk { kind := .directory } cs ∧ (∀ n c, lookup n cs = some c → isTemporaryName n = false) ∧
+      (∀ n c, lookup n cs = some c → GoodNew c) := by
+  cases hg with
+  | file x d => simp [Entry.kind, Entry.props] at hk
+  | symlink t => simp [Entry.kind, Entry.props] at hk
+  | dir cs h1 h2 => exact ⟨cs, rfl, h1, h2⟩
+  | other e h1 h2 h3 => exact absurd hk h1
+
+/-- A file created for a well-formed file entry is described by that entry. -/
+theorem rep_of_moved (X : XCtx) (hmode : FileModeOK X.env) (st st' : St) (parent : Handle) (name : Name) (path : Path)
+    (x : Bool) (d : List UInt8) (sf : SFile) (replace : Bool)
+    (hh : X.H sf.data = d)
+    (hm : Moved st st' parent name sf.data
+      (fileModeOf X.env (.mk { kind := .file, executable := x, digest := d } [])) replace) :
+    RepAt X st'.fs (parent ++ [name]) path (.mk { kind := .file, executable := x, digest := d } []) := by
+  have hfm : fileModeOf X.env (.mk { kind := .file, executable := x, digest := d } []) =
+      (if x then markExecutableForReaders X.env.fileMode else X.env.fileMode) := rfl
+  rw [hfm] at hm
+  obtain ⟨perm, m, i, hs, hp, _, _⟩ := hm
+  have hmo := hmode x
+  have hperm := hp hmo.2
+  have := RepAt.file (X := X) (top := st'.fs) (parent ++ [name]) path sf.data perm m i hs
+  rw [hh, hperm, hmo.1] at this
+  exact this
+
+theorem createLoop_exact (X : XCtx) (htmp : ∀ k l, isTemporaryName (X.env.tmpName k l) = true)
+    (hmode : FileModeOK X.env) (rec : MkRec) (hrec : MkX X rec) (dirQ : List Name) (path : Path)
+    (hq : TempFree dirQ) (target : Contents)
+    (hkeys : ∀ n c, lookup n target = some c → isTemporaryName n = false)
+    (hgood : ∀ n c, lookup n target = some c → GoodNew c) (names : List Name) :
+    ∀ (acc : Contents) (st : St), DirRep X st.fs dirQ path acc → Honest X st →
+      DirRep X (createLoop X.env rec dirQ path target names acc st).2.fs dirQ path
+        (createLoop X.env rec dirQ path target names acc st).1 ∧
+      StagedShrinks st (createLoop X.env rec dirQ path target names acc st).2 ∧
+      FrameT st.fs (createLoop X.env rec dirQ path target names acc st).2.fs dirQ := by
+  induction names with
+  | nil => intro acc st hI _; simpa [createLoop] using ⟨hI, StagedShrinks.refl _, FrameT.refl _ _⟩
+  | cons n rest ih =>
+    intro acc st hI hH
+    unfold createLoop
+    split
+    · exact ⟨hI, StagedShrinks.of_eq rfl, FrameT.refl _ _⟩
+    · cases hl : lookup n target with
+      | none => exact ih acc st hI hH
+      | some entry =>
+        have hn := hkeys n entry hl
+        have hg := hgood n entry hl
+        have hqn : TempFree (dirQ ++ [n]) := tempFree_snoc hq hn
+        -- continuation when nothing but temporaries changed
+        have hskip : ∀ st1 : St, Unch st.fs st1.fs → StagedShrinks st st1 →
+            DirRep X (createLoop X.env rec dirQ path target rest acc st1).2.fs dirQ path
+              (createLoop X.env rec dirQ path target rest acc st1).1 ∧
+            StagedShrinks st (createLoop X.env rec dirQ path target rest acc st1).2 ∧
+            FrameT st.fs (createLoop X.env rec dirQ path target rest acc st1).2.fs dirQ := by
+          intro st1 hu hs
+          obtain ⟨r1, r2, r3⟩ := ih acc st1 (hI.unch hq hu) (hH.shrinks hs)
+          exact ⟨r1, hs.trans r2, FrameT.unch_left hu r3⟩
+        -- continuation when the child was created
+        have hmade : ∀ (st1 : St) (ce : Entry), FrameT st.fs st1.fs (dirQ ++ [n]) → StagedShrinks st st1 →
+            RepAt X st1.fs (dirQ ++ [n]) (path ++ [n]) ce →
+            DirRep X (createLoop X.env rec dirQ path target rest (upsert n ce acc) st1).2.fs dirQ path
+              (createLoop X.env rec dirQ path target rest (upsert n ce acc) st1).1 ∧
+            StagedShrinks st (createLoop X.env rec dirQ path target rest (upsert n ce acc) st1).2 ∧
+            FrameT st.fs (createLoop X.env rec dirQ path target rest (upsert n ce acc) st1).2.fs dirQ := by
+          intro st1 ce hf hs hrep
+          obtain ⟨r1, r2, r3⟩ := ih (upsert n ce acc) st1 (hI.child_replaced hq n hn hf ce hrep) (hH.shrinks hs)
+          exact ⟨r1, hs.trans r2, FrameT.trans (hf.weaken (List.prefix_append dirQ [n])) r3⟩
+        simp only
+        split
+        · -- directory
+          rename_i hk
+          have hkd : entry.kind = .directory := by simpa using hk
+          have hr := hrec st dirQ n (path ++ [n]) entry hqn hg hkd hH
+          rcases hrc : rec st dirQ n (path ++ [n]) entry with ⟨c, st1⟩
+          rw [hrc] at hr
+          simp only at hr
+          obtain ⟨hs, hnone, hsome⟩ := hr
+          cases c with
+          | none => exact hskip st1 (hnone rfl) hs
+          | some ce =>
+            obtain ⟨_, hrep, hf⟩ := hsome ce rfl
+            exact hmade st1 ce hf hs hrep
+        · split
+          · -- file
+            rename_i hk
+            have hkf : entry.kind = .file := by simpa using hk
+            obtain ⟨x, d, hshape⟩ := goodNew_file_shape entry hg hkf
+            rcases hf : findAndMove X.env st (path ++ [n]) entry dirQ n false with ⟨r, st1⟩
+            obtain ⟨_, hs, hfail, hok, _⟩ := findAndMove_eff X.env htmp st (path ++ [n]) entry dirQ n hn false r st1 hf
+            cases r with
+            | some e => exact hskip (st1.problem (path ++ [n]) ("mkfile:" ++ e)) (hfail (by simp)) hs
+            | none =>
+              obtain ⟨sf, hsf, hm⟩ := hok rfl
+              have hd : X.H sf.data = d := by
+                have := hH _ sf hsf
+                rw [this, hshape]
+                rfl
+              have hrep : RepAt X st1.fs (dirQ ++ [n]) (path ++ [n]) entry := by
+                rw [hshape] at hm ⊢
+                exact rep_of_moved X hmode st st1 dirQ n (path ++ [n]) x d sf false hd hm
+              obtain ⟨_, _, _, _, _, hfr, _⟩ := hm
+              exact hmade st1 entry hfr hs hrep
+          · split
+            · -- symbolic link
+              rename_i hk
+              have hkl : entry.kind = .symlink := by simpa using hk
+              obtain ⟨t, hshape⟩ := goodNew_symlink_shape entry hg hkl
+              rcases hf : createSymbolicLink X.env st dirQ n (path ++ [n]) entry with ⟨r, st1⟩
+              obtain ⟨hst, hfail, hok⟩ := createSymbolicLink_eff X.env st dirQ n (path ++ [n]) entry r st1 hf
+              cases r with
+              | some e =>
+                exact hskip (st1.problem (path ++ [n]) ("mklink:" ++ e)) (Unch.of_eq (hfail (by simp)))
+                  (StagedShrinks.of_eq hst)
+              | none =>
+                obtain ⟨hsl, hshown⟩ := hok rfl
+                obtain ⟨_, hget, hfr⟩ := fsSymlink_spec _ _ _ _ _ hsl
+                have hrep : RepAt X st1.fs (dirQ ++ [n]) (path ++ [n]) entry := by
+                  rw [hshape] at hshown hget ⊢
+                  exact RepAt.symlink _ _ t t (sget_of_get _ _ _ hget) hshown
+                exact hmade st1 entry (FrameT.of_frame hfr) (StagedShrinks.of_eq hst) hrep
+            · exact hskip (st.problem (path ++ [n]) "create-unknown-type") (Unch.refl _) (StagedShrinks.of_eq rfl)
+
+/-- A directory that was just created, and whose mode may just have been set,
+is described by the empty directory entry. -/
+theorem dirRep_fresh (X : XCtx) (fs : Node) (q : List Name) (path : Path) (perm : Nat)
+    (h : fs.get q = some (.dir perm [])) : DirRep X fs q path [] := by
+  refine ⟨⟨perm, sget_of_get _ _ _ h⟩, fun n ce hl => (by cases hl), fun n ce hl => (by cases hl), ?_⟩
+  intro n _ _
+  apply unsync_of_none
+  simp [sget, get_append, h, get_cons_dir, aget]
+
+theorem createDirectory_exact (X : XCtx) (htmp : ∀ k l, isTemporaryName (X.env.tmpName k l) = true)
+    (hmode : FileModeOK X.env) (fuel : Nat) : MkX X (createDirectory X.env fuel) := by
+  induction fuel with
+  | zero =>
+    intro st h n p e _ _ _ _
+    simp only [createDirectory]
+    exact ⟨StagedShrinks.of_eq rfl, fun _ => Unch.refl _, fun ce hc => (by cases hc)⟩
+  | succ fuel ih =>
+    intro st parent name path target hq hg hkind hH
+    obtain ⟨cs, hshape, hkeys, hgood⟩ := goodNew_dir_shape target hg hkind
+    have hprops : target.props = { kind := .directory } := by rw [hshape]; rfl
+    have hkids : target.children = cs := by rw [hshape]; rfl
+    unfold createDirectory
+    rw [hprops, hkids]
+    -- a refusal that leaves everything as it is
+    have hrefuse : ∀ (st' : St) (cls : String), st'.fs = st.fs → st'.staged = st.staged →
+        StagedShrinks st ((none : Option Entry), st'.problem path cls).2 ∧
+        (((none : Option Entry), st'.problem path cls).1 = none → Unch st.fs ((none : Option Entry), st'.problem path cls).2.fs) ∧
+        (∀ ce, ((none : Option Entry), st'.problem path cls).1 = some ce → sget st.fs (parent ++ [name]) = none ∧
+          RepAt X ((none : Option Entry), st'.problem path cls).2.fs (parent ++ [name]) path ce ∧
+          FrameT st.fs ((none : Option Entry), st'.problem path cls).2.fs (parent ++ [name])) := by
+      intro st' cls hfs hst
+      exact ⟨StagedShrinks.of_eq (by simpa using hst), fun _ => Unch.of_eq (by simpa using hfs), fun ce hc => (by cases hc)⟩
+    split
+    · exact hrefuse st _ rfl rfl
+    · rcases hh : hook X.env st .mkdir name with ⟨a, st1⟩
+      have h1 : st1.fs = st.fs := by have := hook_fs X.env st .mkdir name; rw [hh] at this; exact this
+      have hs1 : st1.staged = st.staged := by have := hook_staged X.env st .mkdir name; rw [hh] at this; exact this
+      simp only
+      split
+      · exact hrefuse st1 _ h1 hs1
+      · cases hm : fsMkdir st1.fs parent name with
+        | none => exact hrefuse st1 _ h1 hs1
+        | some fs2 =>
+          simp only
+          obtain ⟨hnone, hget2, hfr2⟩ := fsMkdir_spec st1.fs fs2 parent name hm
+          rw [h1] at hnone hfr2
+          have hpre : sget st.fs (parent ++ [name]) = none := by simp [sget, hnone]
+          rcases hc : opChmod X.env { st1 with fs := fs2 } parent name X.env.dirMode with ⟨b, st3⟩
+          obtain ⟨hq3, hc3⟩ := opChmod_eff X.env _ parent name _ b st3 hc
+          -- after the permission call the new directory is still empty
+          have hst3 : ∃ perm, st3.fs.get (parent ++ [name]) = some (.dir perm []) ∧
+              Frame st.fs st3.fs (parent ++ [name]) := by
+            rcases hc3 with ⟨_, _, hfs⟩ | ⟨_, _, hfs⟩ | ⟨_, hfs⟩
+            · simp only at hfs; exact ⟨0o700, by rw [hfs]; exact hget2, by rw [hfs]; exact hfr2⟩
+            · simp only at hfs
+              unfold fsChmod at hfs
+              obtain ⟨p, k, k', g1, g2, g3⟩ := updDir_at _ _ _ _ hfs
+              have gc := get_child fs2 parent p k g1 name
+              rw [hget2] at gc
+              rw [← gc] at g2
+              simp only [Option.some.injEq] at g2
+              obtain ⟨_, hfr, _, _⟩ := fsChmod_spec fs2 st3.fs parent name _ (by unfold fsChmod; exact hfs)
+              refine ⟨X.env.dirMode % 512, ?_, ?_⟩
+              · rw [get_child st3.fs parent p k' g3 name, ← g2, aget_aset_self]
+              · intro q hqq
+                rw [hfr q (by rintro rfl; exact hqq (List.prefix_refl _))]
+                exact hfr2 q hqq
+            · simp only at hfs; exact ⟨0o700, by rw [hfs]; exact hget2, by rw [hfs]; exact hfr2⟩
+          obtain ⟨perm3, hget3, hfr3⟩ := hst3
+          have hs3 : st3.staged = st.staged := by rw [hq3.2]; exact hs1
+          have hI3 : DirRep X st3.fs (parent ++ [name]) path [] := dirRep_fresh X st3.fs _ path perm3 hget3
+          -- the directory exists: it is reported, with whatever was created in it
+          have hdone : ∀ (st' : St), st'.fs = st3.fs → st'.staged = st.staged →
+              StagedShrinks st (some (Entry.mk { kind := .directory } []), st').2 ∧
+              ((some (Entry.mk { kind := .directory } []), st').1 = none → Unch st.fs st'.fs) ∧
+              (∀ ce, (some (Entry.mk { kind := .directory } []), st').1 = some ce →
+                sget st.fs (parent ++ [name]) = none ∧ RepAt X st'.fs (parent ++ [name]) path ce ∧
+                FrameT st.fs st'.fs (parent ++ [name])) := by
+            intro st' hfs hst
+            refine ⟨StagedShrinks.of_eq hst, fun hc => (by cases hc), fun ce hce => ?_⟩
+            simp only [Option.some.injEq] at hce; subst hce
+            exact ⟨hpre, by rw [hfs]; exact rep_of_dirRep X _ _ _ _ hI3, by rw [hfs]; exact FrameT.of_frame hfr3⟩
+          cases b with
+          | false => exact hdone _ (by simp) (by simpa using hs3)
+          | true =>
+            simp only
+            split
+            · exact hdone st3 rfl hs3
+            · rcases hh4 : hook X.env st3 .opendir name with ⟨a4, st4⟩
+              have h4 : st4.fs = st3.fs := by have := hook_fs X.env st3 .opendir name; rw [hh4] at this; exact this
+              have hs4 : st4.staged = st.staged := by
+                have := hook_staged X.env st3 .opendir name; rw [hh4] at this; rw [this]; exact hs3
+              simp only
+              split
+              · exact hdone _ (by simpa using h4) (by simpa using hs4)
+              · cases hd : dirAt st4.fs (parent ++ [name]) with
+                | none => exact hdone _ (by simpa using h4) (by simpa using hs4)
+                | some csd =>
+                  simp only
+                  have hH4 : Honest X st4 := hH.of_eq hs4
+                  have hloop := createLoop_exact X htmp hmode (createDirectory X.env fuel) ih (parent ++ [name]) path hq
+                    cs hkeys hgood (X.env.ord (keys cs)) [] st4 (hI3.same_fs h4) hH4
+                  rcases hcl : createLoop X.env (createDirectory X.env fuel) (parent ++ [name]) path cs
+                    (X.env.ord (keys cs)) [] st4 with ⟨acc, st5⟩
+                  rw [hcl] at hloop
+                  simp only at hloop
+                  obtain ⟨hI5, hS5, hF5⟩ := hloop
+                  refine ⟨(StagedShrinks.of_eq hs4).trans hS5, fun hc => (by cases hc), fun ce hce => ?_⟩
+                  simp only [Option.some.injEq] at hce; subst hce
+                  refine ⟨hpre, rep_of_dirRep X _ _ _ _ hI5, ?_⟩
+                  rw [h4] at hF5
+                  exact FrameT.trans (FrameT.of_frame hfr3) hF5
+
 end Mutagen.Proofs.FS
